@@ -1166,3 +1166,7 @@ mod tests {
         assert!(data.is_empty());
     }
 }
+
+#[cfg(cberner_raptorq_verif)]
+#[path = "/verif/hooks/octets_hooks.rs"]
+pub(crate) mod verif_hooks;
